@@ -113,6 +113,9 @@ type run struct {
 	// Concurrent: the history contains operations that run concurrently with others (controlled
 	// schedules, concurrent Close batches, context cancellation handled by watcher goroutines)
 	Concurrent bool
+	// EditAfterBuild: resolveEverything first adds a member to every group of the collection the
+	// provider was built from
+	EditAfterBuild bool
 }
 
 func startRun(cfg *kit.Config, order []int) (*run, error) {
